@@ -234,6 +234,7 @@ def main():
                 continue
             reals = [("fb", graphreal.realise_fb(g)), ("struct", graphreal.realise_struct(g)), ("struct+alias", graphreal.realise_struct(g, alias=True)),
                      ("mixed", graphreal.realise_mixed(g, 1))]
+            reals.append(("fb-arrays", graphreal.realise_fb(g, arrays=True)))
             reals.append(("struct+alias-aliases-twice", graphreal.realise_struct(g, alias=True, aliases_twice=True)))
             if all(len(graphreal.outs(g, i)) <= 1 for i in range(1, g["n"] + 1)):
                 reals.append(("enum-alias", graphreal.realise_enum_alias(g)))
